@@ -123,3 +123,34 @@ Example C06_example_simpleartmap :
   = sam_partial_fit K (@sam_init QN [3#4]) (X1 ++ X2) [0; 1; 1; 0]%nat MTplus (0 : QN)
   /\ sam_pf_seq K (@sam_init QN [3#4]) [(X1, [0; 1]%nat); (X2, [1; 0]%nat)] MTplus (0 : QN) <> None.
 Proof. vm_compute. split; [reflexivity|discriminate]. Qed.
+
+(* DualVigilanceART: a fit of a model with a history = the fit of a freshly constructed one with the same vigilance -
+   base categories, counters, the category-to-cluster map and the wrapper's counter of the earlier history are all gone
+   (wave-7 seeds C05_7 / C19_7 kept the old map) *)
+From ART Require Import DualVig DualVig_refit.
+Theorem C06_dualvigilance_fit_forgets :
+  forall (N : Num) (K : Kernel N) (s : dv (N:=N)) X veto mode eps lb,
+    X <> [] -> valid K (DB s) X = true -> valid K (DB (dv_init (rho (DB s)))) X = true ->
+    match dv_fit K s X veto mode eps lb, dv_fit K (dv_init (rho (DB s))) X veto mode eps lb with
+    | Some (a, la), Some (b, lb') => same_model a b /\ la = lb'
+    | None, None => True
+    | _, _ => False
+    end.
+Proof. exact @dv_fit_forgets. Qed.
+Print Assumptions C06_dualvigilance_fit_forgets.
+
+(* the same for TopoART (adjacency and permanence flags are replaced by the first step) and for SimpleARTMAP (the A side,
+   the map and the stored targets; any number of epochs): equality of the whole result *)
+From ART Require Import Topo Topo_refit SimpleARTMAP SAM_refit.
+Theorem C06_topoart_fit_forgets :
+  forall (N : Num) (K Klow : Kernel N) (tau phi : nat) (s : topo (N:=N)) X veto mode eps,
+    X <> [] -> valid K (TB s) X = true -> valid K (TB (topo_init (rho (TB s)))) X = true ->
+    topo_fit K Klow tau phi s X veto mode eps = topo_fit K Klow tau phi (topo_init (rho (TB s))) X veto mode eps.
+Proof. exact @topo_fit_forgets. Qed.
+Theorem C06_simpleartmap_fit_forgets :
+  forall (N : Num) (K : Kernel N) (s : sam (N:=N)) X y iters m eps,
+    sam_valid K s X y = true -> sam_valid K (sam_init (rho (A s))) X y = true ->
+    sam_fit K s X y iters m eps = sam_fit K (sam_init (rho (A s))) X y iters m eps.
+Proof. exact @sam_fit_forgets. Qed.
+Print Assumptions C06_topoart_fit_forgets.
+Print Assumptions C06_simpleartmap_fit_forgets.
